@@ -1,7 +1,8 @@
-\* the code as it is (null members are kept since 2e39ed6; the other repairs are not in the code): used to tell which recorded violations are the known ones
+\* the code as it is (null members are kept since 2e39ed6, the description sort is repaired since 82901c2; the other repairs are not in the code): used to tell which recorded violations are the known ones
 SPECIFICATION TSpec
 CONSTANTS
   ShardFailureFix = FALSE
+  DescriptionSortFix = TRUE
   CursorFix = FALSE
   CursorRawDecode = FALSE
   NullMemberFix = TRUE
